@@ -20,7 +20,9 @@ RootFens == <<
   "6k1/8/6K1/8/8/8/8/3Q4 w - - 0 1",         \* mate in one for White
   "8/8/8/8/8/2k5/1p6/3K4 b - - 0 1",         \* promotions (irreversible) and a stalemate trap
   "4k3/8/8/8/8/8/8/R3K3 w Q - 0 1",          \* castling right that can be lost
-  "k7/8/K7/8/8/8/8/7R w - - 0 1"             \* mate in one by the rook
+  "k7/8/K7/8/8/8/8/7R w - - 0 1",            \* mate in one by the rook
+  "4k3/8/8/8/8/8/8/R3K1N1 w Q - 0 1",        \* unequal rights that survive a knight shuffle (threefold with rights)
+  "r3k1n1/8/8/8/8/8/8/4K3 b q - 0 1"         \* the same for Black
 >>
 Roots == {ReadFen(RootFens[i]) : i \in 1..Len(RootFens)}
 ASSUME \A p \in Roots : Valid(p)
